@@ -99,6 +99,25 @@ pub fn check_module(m: &dr::Module, origin: &str, r: &mut Report, rp: &dyn Fn() 
                 return false;
             }
         };
+        // extended-instruction numbers are shown by name when the set is GLSL.std.450 / OpenCL.std and
+        // the number belongs to the set; otherwise as a number
+        if opname == "ExtInst" {
+            if let (Some(set), Some(num)) = (inst.ops.first().and_then(|o| o.word()), inst.ops.get(1).and_then(|o| o.word())) {
+                let table = match reader.imports.get(&set).map(|s| s.as_str()) {
+                    Some("GLSL.std.450") => Some(&d.glsl),
+                    Some("OpenCL.std") => Some(&d.cl),
+                    _ => None,
+                };
+                let known = table.map(|t| t.iter().any(|e| e.opcode == num)).unwrap_or(false);
+                if reader.last_ext_symbolic.get() != Some(known) {
+                    fail(r, format!("extinst-name:{}", if known { "number-for-known-instruction" } else { "name-for-unknown-instruction" }), format!("line {}: instruction number {} of set %{} ({:?}) is {}shown by name although it {} to the imported set\nline: {}", i + 1, num, set, reader.imports.get(&set), if known { "not " } else { "" }, if known { "belongs" } else { "does not belong" }, line));
+                    return false;
+                }
+                if known {
+                    r.count("ext_inst_names_checked", 1);
+                }
+            }
+        }
         let got = inst.enc();
         if got.as_slice() != *want {
             if (opname == "Constant") && is_nan_literal(&inst, type_before) {
@@ -142,9 +161,10 @@ pub fn run(cfg: &Cfg, rep: &mut Report) {
             if i.opname() == "ExtInst" && i.ops.len() >= 2 {
                 let (set, name) = *rng.pick(&imports);
                 let table = if name == "GLSL.std.450" { &d.glsl } else { &d.cl };
-                let num = match rng.below(4) {
+                let num = match rng.below(6) {
                     0 => rng.below(300) as u32,
                     1 => rng.u32(),
+                    2 => *rng.pick(&[0u32, 1, 81, 82, 83, 162, 163, 204, 205, u32::MAX]),
                     _ => table[rng.below(table.len())].opcode,
                 };
                 i.ops[0] = AOp::id(if rng.chance(1, 8) { 77 } else { set });
